@@ -25,6 +25,8 @@ type behaviour struct {
 	MinSize bool
 	// DocFilter may drop documents (return false) that are outside the property's quantifier.
 	DocFilter func(sc *SCase, d *refmodel.Doc, trueVerdict refmodel.Verdict) bool
+	// DocGen overrides the generic document enumeration.
+	DocGen func(sc *SCase, m *refmodel.Model) []refmodel.Doc
 	// OnGenErr / OnBuildErr decide what a non-generated / non-compiling program means for this property.
 	OnGenErr   func(sc *SCase, msg string)
 	OnBuildErr func(sc *SCase, msg string)
@@ -82,6 +84,9 @@ func runBehaviour(ctx *Ctx, b behaviour) {
 		ctx.Run.Count("programs", 1)
 		if p.GenErr != "" {
 			ctx.Run.Count("programs_not_generated", 1)
+			if os.Getenv("VERIF_DEBUG") != "" {
+				fmt.Printf("DEBUG gen error %s: %s\n", sc.ID, firstLine(p.GenErr))
+			}
 			if b.OnGenErr != nil {
 				b.OnGenErr(sc, p.GenErr)
 			}
@@ -117,7 +122,13 @@ func runBehaviour(ctx *Ctx, b behaviour) {
 		}
 		m.MinSized = p.Case.Cfg.MinSizedInts
 		ctx.Run.Count("programs_executed", 1)
-		for _, d := range m.Docs(b.K) {
+		var docs []refmodel.Doc
+		if b.DocGen != nil {
+			docs = b.DocGen(sc, m)
+		} else {
+			docs = m.Docs(b.K)
+		}
+		for _, d := range docs {
 			tv := m.Valid(d.V)
 			if tv == refmodel.Unspec {
 				ctx.Run.Count("documents_unspecified_skipped", 1)
@@ -206,14 +217,14 @@ func attribute(m *refmodel.Model, doc any, observed refmodel.Verdict, listed []s
 	defer func() { m.Dev = map[string]bool{} }()
 	for _, d := range listed {
 		m.Dev = map[string]bool{d: true}
-		if m.Valid(doc) == observed {
+		if v := m.Valid(doc); (v == observed || v == refmodel.Unspec) && len(m.Fired) > 0 {
 			return []string{d}, true
 		}
 	}
 	for i := 0; i < len(listed); i++ {
 		for j := i + 1; j < len(listed); j++ {
 			m.Dev = map[string]bool{listed[i]: true, listed[j]: true}
-			if m.Valid(doc) == observed {
+			if v := m.Valid(doc); (v == observed || v == refmodel.Unspec) && len(m.Fired) > 0 {
 				return []string{listed[i], listed[j]}, true
 			}
 		}
@@ -223,7 +234,7 @@ func attribute(m *refmodel.Model, doc any, observed refmodel.Verdict, listed []s
 		for _, d := range listed {
 			m.Dev[d] = true
 		}
-		if m.Valid(doc) == observed {
+		if v := m.Valid(doc); (v == observed || v == refmodel.Unspec) && len(m.Fired) > 0 {
 			var fired []string
 			for d := range m.Fired {
 				fired = append(fired, d)
@@ -394,7 +405,7 @@ func coarseClass(c string) string {
 	if best > 0 {
 		c = c[best:]
 	}
-	if i := strings.IndexAny(c, "=→"); i > 0 {
+	if i := strings.IndexAny(c, "=→("); i > 0 {
 		c = c[:i]
 	}
 	return c
